@@ -145,7 +145,9 @@ func History() {
 	defer teardownProject()
 	w := &world{crashCmd: -1, crashWrite: -1, maxFail: sym.ParamInt("maxstatus", 1)}
 	last := map[string]*inputs{}
-	lastFail := map[string]*inputs{} // inputs of the most recent execution that failed (cleared by a success)
+	// exempt[t]: since its last success, t failed on exactly the inputs of that success (sticky
+	// until the next success; may be symbolic). Its digest is then cleared and it must run again.
+	exempt := map[string]bool{}
 	sym.Observe("spokfile", text)
 
 	tree, err := parser.New(text).Parse()
@@ -282,9 +284,7 @@ func History() {
 						}
 					}
 					// ---- C09 (history part): a task that failed on these inputs is not up to date
-					if lf := lastFail[r.Task]; lf != nil && samePaths(cur.paths, lf.paths) {
-						sym.Assert(!sameContents(cur.contents, lf.contents), "C09/failed-task-skipped-by-a-later-run")
-					}
+					sym.Assert(!exempt[r.Task], "C09/failed-task-skipped-by-a-later-run")
 				} else {
 					sym.Reach("ran")
 					// ---- C02: unchanged since last success => skipped
@@ -296,12 +296,9 @@ func History() {
 						if prev.why != "" {
 							id += "/last-success-not-recorded-because-" + prev.why
 						}
-						differs := !sameContents(cur.contents, prev.contents)
-						// C09 takes precedence where the two clauses meet: a task whose most recent
-						// execution failed on exactly the current inputs is not up to date
-						if lf := lastFail[r.Task]; lf != nil && samePaths(cur.paths, lf.paths) {
-							differs = sym.Or(differs, sameContents(cur.contents, lf.contents))
-						}
+						// C09 takes precedence where the two clauses meet: a task that failed on the
+						// inputs of its last success (at any time since) is not up to date on them
+						differs := sym.Or(!sameContents(cur.contents, prev.contents), exempt[r.Task])
 						sym.Assert(differs, id)
 					}
 				}
@@ -312,10 +309,12 @@ func History() {
 					in := currentInputs(sf, r.Task)
 					in.why = whyNotRecorded(force, anySkipped, anyNoDeps, !allOK, false)
 					last[r.Task] = &in
-					delete(lastFail, r.Task)
+					exempt[r.Task] = false
 				} else if ran[r.Task] {
 					in := currentInputs(sf, r.Task)
-					lastFail[r.Task] = &in
+					if prev := last[r.Task]; prev != nil && prev.valid && samePaths(in.paths, prev.paths) {
+						exempt[r.Task] = sym.Or(exempt[r.Task], sameContents(in.contents, prev.contents))
+					}
 				}
 			}
 		} else {
@@ -325,7 +324,7 @@ func History() {
 					in := currentInputs(sf, t)
 					in.why = whyNotRecorded(force, false, false, !allOK, true)
 					last[t] = &in
-					delete(lastFail, t)
+					exempt[t] = false
 				}
 			}
 			if rerr != nil {
